@@ -78,6 +78,73 @@ def synth_trace(args):
             'ev': ev}
 
 
+def near_trace(args):
+    """Nearly commensurate meshes (real dimensions): a gap boundary lies a
+    fraction of a micron to a few microns below or above a duct boundary.
+    The maps must still partition every cell: unit row sums, conservation
+    with the cell lengths of both meshes (computed here from the two lists
+    of boundaries)."""
+    label, H, n_reg, p_reg, n_gap, p_gap = args
+    dassh = common.import_dassh()
+
+    def bounds(n, p):
+        x = [0.0]
+        c = 0.5 * (H - n * p)
+        for s_ in range(6):
+            for j in range(n + 1):
+                x.append(s_ * H + c + j * p)
+        x.append(6 * H)
+        return np.array(x)
+    xc = bounds(n_reg, p_reg)
+    xf = bounds(n_gap, p_gap)
+    core_row = np.zeros(len(xf) - 2 + 3)
+    core_row[:len(xf) - 2] = xf[1:-1]
+    ev = []
+    try:
+        f2c, c2f = dassh.mesh_functions._map_asm2gap(xc, core_row)
+        nf, nc = len(xf) - 2, len(xc) - 2
+        lenc = np.diff(xc)
+        lenc = np.append(lenc[1:-1], lenc[0] + lenc[-1])
+        lenf = np.diff(xf)
+        lenf = np.append(lenf[1:-1], lenf[0] + lenf[-1])
+        f2c = f2c[:, :nf]
+        c2f = c2f[:nf, :]
+        ev.append({'e': 'Props', 'tol': 4,
+                   'consF2C': [int(round(v * Q)) for v in (lenc @ f2c) / lenf],
+                   'consC2F': [int(round(v * Q)) for v in (lenf @ c2f) / lenc],
+                   'rowF2C': [int(round(v * Q)) for v in np.sum(f2c, axis=1)],
+                   'rowC2F': [int(round(v * Q)) for v in np.sum(c2f, axis=1)],
+                   'nonneg': int(bool(np.all(f2c >= 0) and np.all(c2f >= 0))),
+                   'same': 0, 'identity': 0, 'flux': 1, 'heat': [0.0, 0.0]})
+    except BaseException as e:
+        ev.append({'e': 'BuildFailed', 'exc': type(e).__name__,
+                   'msg': str(e)[:120]})
+    return {'label': label, 'cfg': {'xc': [0, 1, 2], 'xf': [0, 1, 2], 'P': 2},
+            'ev': ev}
+
+
+def near_cases(rng, tier):
+    out = []
+    H = 0.12 / 3 ** 0.5      # hexagon side of a 12 cm duct
+    k = 0
+    for n_reg in (1, 2, 3, 4, 6):
+        for mult in (1, 2, 3):
+            n_gap = mult * n_reg
+            p_reg = H / (n_reg + 1.3)
+            for delta in (2e-8, 3e-7, 1e-6, 2.5e-6, -3e-7, -1e-6):
+                # equal cell counts with boundaries that agree to a fraction
+                # of a micron: the routine takes such meshes for the same
+                # mesh (identity, conservative to 1e-5) - its own equality
+                # tolerance, not judged here
+                if mult == 1 and abs(delta) < 2e-6:
+                    continue
+                p_gap = p_reg / mult - delta / mult
+                out.append((f'near-n{n_reg}-x{mult}-d{k}', H, n_reg, p_reg,
+                            n_gap, p_gap))
+                k += 1
+    return out
+
+
 def synth_cases(rng, tier):
     out = []
     maxn = 15
@@ -228,6 +295,8 @@ def run(tier, res, replay=None):
     rec.append(('7-bundle-among-lowfi', c))
     with ProcessPoolExecutor(max_workers=common.NCPU) as ex:
         traces = list(ex.map(synth_trace, syn, chunksize=8))
+        traces += list(ex.map(near_trace, near_cases(rng, tier),
+                              chunksize=8))
         for t in ex.map(recorded_trace, rec):
             traces += t
     n = common.NCPU
